@@ -191,12 +191,60 @@ fn case<S: Scheme>(ctx: &mut Ctx, idx: u64, rng: &mut ChaCha20Rng, large: bool) 
     }
 }
 
+/// Universal parameters with more than 2^14 powers (Sonic publishes a G2 power per degree): chunked table
+/// construction only starts at such sizes. Only setup is repeated here, under one thread and two drawn pool sizes.
+fn huge_setup(ctx: &mut Ctx, rng: &mut ChaCha20Rng) {
+    use ark_poly_commit::PolynomialCommitment;
+    type S = crate::schemes::SonicS<crate::schemes::E381>;
+    let d = (1usize << 14) + 1 + (rng.next_u32() % 3000) as usize;
+    let mut seed = [0u8; 32];
+    rng.fill_bytes(&mut seed);
+    let run = |_t: usize| -> String {
+        let mut r = ChaCha20Rng::from_seed(seed);
+        match crate::rt::attempt(|| PcOf::<S>::setup(d, None, &mut r)) {
+            Ok(pp) => dig(&pp),
+            Err(o) => format!("refused: {}", o.tag()),
+        }
+    };
+    #[allow(unused_mut)]
+    let mut runs: Vec<(String, String)> = Vec::new();
+    #[cfg(feature = "par")]
+    {
+        let mut pools = vec![1usize];
+        while pools.len() < 3 {
+            let t = 2 + (rng.next_u32() % 23) as usize;
+            if !pools.contains(&t) {
+                pools.push(t);
+            }
+        }
+        for t in pools {
+            runs.push((format!("pool-{}", t), in_pool(t, || run(t))));
+        }
+    }
+    #[cfg(not(feature = "par"))]
+    {
+        runs.push(("no-parallel-feature".into(), run(0)));
+    }
+    ctx.count("executions", runs.len() as u64);
+    let mut note = serde_json::Map::new();
+    note.insert("sonic/huge-setup|0|setup/universal-params".to_string(), json!(runs[0].1));
+    ctx.merge_note_map("digests", note);
+    let same = runs.iter().all(|(_, d)| *d == runs[0].1);
+    let desc = json!({"max_degree": d, "executions": runs.iter().map(|(n, _)| n.clone()).collect::<Vec<_>>()});
+    if same {
+        ctx.held("same-digests-across-thread-counts", desc);
+    } else {
+        ctx.violated("same-digests-across-thread-counts", "setup/universal-params", desc, json!({"digests": runs}));
+    }
+}
+
 pub fn run(ctx: &mut Ctx) {
     crate::schemes::set_custom_params(true);
     for_each_scheme!(ctx, S, {
         let n = ctx.n(24, 300) / <S as Scheme>::WEIGHT.max(1);
         ctx.run_cases(<S as Scheme>::NAME, n.max(3), |ctx, i, rng| case::<S>(ctx, i, rng, false));
     });
+    ctx.run_cases("sonic/huge-setup", 1, |ctx, _i, rng| huge_setup(ctx, rng));
     // polynomials with more than a thousand coefficients (one curve per scheme is enough here)
     let nl = if ctx.is_thorough() { 12 } else { 4 };
     ctx.run_cases("marlin/large", nl, |ctx, i, rng| case::<crate::schemes::MarlinS<crate::schemes::E381>>(ctx, i, rng, true));
